@@ -773,7 +773,45 @@ def run_chain(fspec, lines):
             continue
         elems.append(_Wrap(i, l))
     out = [IDX[id(m)] for m in chain.filter(elems)]
-    return '[' + ','.join(str(i) for i in out) + ']'
+    res = '[' + ','.join(str(i) for i in out) + ']'
+    # the same chain (fresh filter objects) over the sentence objects a reader delivers
+    try:
+        sents = []
+        for e in elems:
+            sobj = DEC._assemble_messages(e.line)
+            sobj.__class__ = _sent_class()
+            SENT_IDX[id(sobj)] = e.idx
+            sents.append(sobj)
+    except TypeError:
+        return res
+    chain2 = FL.FilterChain([make_filter(s) for s in fspec.split('+')])
+    try:
+        out2 = [IDX[id(m)] for m in chain2.filter(iter(sents))]
+        res2 = '[' + ','.join(str(i) for i in out2) + ']'
+    except Exception as e:  # noqa
+        res2 = err(e)
+    SENT_IDX.clear()
+    if res2 != res:
+        return 'READERS-DIFFER chain-over-decodables=%s chain-over-sentences=%s' % (res, res2)
+    return res
+
+
+SENT_IDX = {}
+_SENT_CLASS = []
+
+
+def _sent_class():
+    if not _SENT_CLASS:
+        class _Sent(M.AISSentence):
+            __slots__ = ()
+
+            def decode(self):
+                m = M.AISSentence.decode(self)
+                IDX[id(m)] = SENT_IDX[id(self)]
+                KEEP.append(m)
+                return m
+        _SENT_CLASS.append(_Sent)
+    return _SENT_CLASS[0]
 
 
 def step2(line):
